@@ -57,6 +57,9 @@ def prefix_fn(st, a):
                 st.assume(z3.ForAll([m], z3.Implies(z3.And(m >= -1, m < n), P(m) == Q1(m) + Q2(m)), patterns=[P(m)]))
             else:
                 st.assume(z3.ForAll([m], z3.Implies(z3.And(m >= -1, m < n), P(m) == Q1(m) - Q2(m)), patterns=[P(m)]))
+        elif kind == "const":
+            # L-SUM-const: a(i) = c for all i  =>  P(m) = (m+1) c
+            st.assume(z3.ForAll([m], z3.Implies(z3.And(m >= -1, m < n), P(m) == z3.ToReal(m + 1) * to_z3(pv[1], "real")), patterns=[P(m)]))
         elif kind == "sq" and isinstance(pv[1], Arr) and pv[1].ndim == 1:
             # L-SUM-sq-pos: non-negative x with positive sum has positive sum of squares
             x = pv[1]
